@@ -8,7 +8,7 @@ import (
 )
 
 var Specs = map[string]*core.Spec{
-	"C19": {Prop: "C19", World: "W2 c19view", Gen: Gen, Decode: Decode, Exec: Exec,
+	"C19": {Prop: "C19", World: "W2 c19view", Gen: Gen, Decode: Decode, Exec: Exec, LightRuns: true,
 		Rule: "3-5 real shard views behind the real memberlist delegate, 1-3 shards; seeded schedules (10-60 steps) of local Raft information changes (Notify, or picked up by the next LocalState), gossip exchanges LocalState->MergeRemoteState with loss, duplication, reordering (capture now / deliver later) and splitting (subset of a payload's shard entries), plus one multiset of raw updates handed to two fresh views in two different permutations with duplicates and different batching. Updates respect Raft: one leader per (shard, term), one membership per (shard, config-change index), a node's own term and config-change index never decrease, a term may be announced without a leader. Oracles after every step on every node and shard: no regression of (leader, term) and of the config-change index; view == canonical fold of every update that reached the node directly or inside payloads; at the end nodes reached by the same updates report equal views. non-trivial = two views reached by the same >=2 updates in different arrival orders were compared, or a payload was delivered out of order or more than once; distinct = digests of every view after every step",
 		Real: []string{"storage/cluster shardView (update, mergeShardInfo, copy, shardInfo)", "storage/cluster delegate.LocalState / MergeRemoteState (JSON clusterState)", "Cluster.Notify refresh path (via VerifView.Notify)", "toShardViewList"},
 		Stub: []string{"memberlist transport: the kernel moves LocalState payloads between delegates (push/pull body only)", "dragonboat NodeHost: ShardInfoList is a harness variable per node", "probe-pair updates are handed in as hand-encoded {\"shard_view\":[...]} payloads or through the local source"},
